@@ -104,6 +104,20 @@ def gen_recipe(rng, mb, kind=None):
         for _ in range(rng.randint(1, 3)):
             op = rng.choice([o for o in fr.OPS if o not in ("*", "CUSTOM_OP")])
             cmds.append({"k": "add", "regex": reg, "operation": op, "cfg": UNIFORM[rng.choice(["a8w8", "a16w8", "a8sw8t"])], "alg": "min_max_uniform_quantize"})
+    elif kind == "mixed" and rng.random() < 0.2 and names:
+        # a scope that is updated AGAIN after a narrower scope was added in between keeps its place in the scan order: a rule under
+        # '.*', an exception for some tensors (no_quantize or another mode), then a rule for ANOTHER operator under '.*' again
+        wide = rng.choice(["wo8", "drq8", "a8w8", "a16w8"])
+        op1 = rng.choice(["*", "FULLY_CONNECTED", "FULLY_CONNECTED", "CONV_2D"])
+        cmds.append({"k": "add", "regex": ".*", "operation": op1, "cfg": UNIFORM[wide], "alg": "min_max_uniform_quantize"})
+        n = rng.choice(names)
+        narrow = rng.choice([n, "^" + n, n[: max(1, len(n) // 2)]])
+        if rng.random() < 0.6:
+            cmds.append({"k": "add", "regex": narrow, "operation": rng.choice(["*", "FULLY_CONNECTED"]), "cfg": None, "alg": "no_quantize"})
+        else:
+            cmds.append({"k": "add", "regex": narrow, "operation": "*", "cfg": UNIFORM[rng.choice(["wo4", "drq4", "a8sw8t"])], "alg": "min_max_uniform_quantize"})
+        op3 = rng.choice([o for o in ("CONV_2D", "BATCH_MATMUL", "EMBEDDING_LOOKUP", "DEPTHWISE_CONV_2D", "FULLY_CONNECTED") if o != op1])
+        cmds.append({"k": "add", "regex": ".*", "operation": op3, "cfg": UNIFORM[rng.choice(["wo8", "drq8"])], "alg": "min_max_uniform_quantize"})
     else:
         for _ in range(rng.randint(1, 5)):
             r = rng.random()
@@ -135,8 +149,9 @@ def apply_recipe(q, cmds):
             cfg = None if c["cfg"] is None else fr.mk_cfg(c["cfg"], c.get("use_enum", True))
             q.update_quantization_recipe(c["regex"], c["operation"], cfg, c["alg"])
             n += 1
+            c["accepted"] = True
         except ValueError:
-            pass
+            c["accepted"] = False
     return n
 
 
